@@ -30,12 +30,175 @@ ASSUMPTIONS = [
 ]
 EVIDENCE_NOTES = [
     "model and theorems are for the REPAIRED code (fixes/C07-stale-truncation-mark.patch, fixes/C07-reader-move-wrap.patch); on the unpatched tree the monitor reports both defects",
-    "proved (unbounded, every capacity, every history): bb_inv_reachable, bb_refines_fifo (trace-level FIFO refinement incl. readable = accepted - consumed after every operation, zero-copy pairs with partial advances, deprecated writer_move pairing), bb_readable_exact, bb_fail_iff_lack (all nine operation kinds, failure leaves the state unchanged), bb_reader_never_stuck, bb_indices_in_range",
-    "only covered by the differential run, not by a theorem: agreement of the hand-written model with the C text (no leaf translator for the three static helpers was built); behaviour for negative sizes or for writer_move_n used outside its contract",
+    "proved (unbounded, every capacity, every history; nothing is left _partial): bb_inv_reachable, bb_refines_fifo (trace-level FIFO refinement incl. readable = accepted - consumed after every operation, zero-copy pairs with partial advances, deprecated writer_move pairing), bb_step_refines (same from any state satisfying the invariant), bb_readable_exact, bb_fail_iff_lack (every operation kind) and bb_refused_changes_nothing, bb_reader_never_stuck, bb_space_accounting, bb_empty_all_writable, bb_indices_in_range; Examples orig_stale_mark_resurrects / orig_reader_move_stuck show by computation that the two original tests break the invariant",
+    "second tie: contiguous_writable / jump_writable / jump_readable / contiguous_readable are translated from the C text on every run (coq/gen/Params_C07.v) and bb_helpers_match_source proves them equal to the model's helpers; an edit of a helper that changes its value breaks that obligation",
+    "only covered by the differential run, not by a theorem: agreement of the hand-written model of the operations themselves (write/read/fetch/fc/move bodies) with the C text; behaviour for negative sizes or for writer_move_n used outside its contract",
     "'st' lines (private fields c w r t) are informational: used for the distinct-state tally, never compared between model and implementation",
 ]
 
 FILL = 0xEE
+
+
+# --------------------------------------------------------------------------
+# leaf translator: the four space helpers of bytes_buffer.c -> Gallina over Z.
+# Accepted C subset: { if (cond) {..} [else {..}] | return expr; }, cond = expr relop expr or !(cond),
+# expr = sums/differences of integer literals, bytes_buf->{c,w,r,t} and parenthesised exprs.
+# Anything else makes the generated definition a constant -1 with the reason in a comment, so that
+# the obligation gen_*_eq (C07/ProofsGen.v) fails instead of silently passing.
+
+import os
+import re
+
+LEAVES = ["contiguous_writable", "jump_writable", "jump_readable", "contiguous_readable"]
+_TOK = re.compile(r"\s*(->|>=|<=|==|!=|[A-Za-z_]\w*|\d+|[{}()<>;+\-!?:])")
+
+
+class _TrErr(Exception):
+    pass
+
+
+def _tokens(text):
+    text = re.sub(r"/\*.*?\*/", " ", text, flags=re.S)
+    text = re.sub(r"//[^\n]*", " ", text)
+    out, i = [], 0
+    text = text.strip()
+    while i < len(text):
+        m = _TOK.match(text, i)
+        if not m:
+            raise _TrErr("unexpected text %r" % text[i:i + 20])
+        out.append(m.group(1))
+        i = m.end()
+        while i < len(text) and text[i].isspace():
+            i += 1
+    return out
+
+
+class _P:
+    def __init__(self, toks):
+        self.t, self.i = toks, 0
+
+    def peek(self):
+        return self.t[self.i] if self.i < len(self.t) else None
+
+    def eat(self, x=None):
+        tk = self.peek()
+        if tk is None or (x is not None and tk != x):
+            raise _TrErr("expected %r, found %r" % (x, tk))
+        self.i += 1
+        return tk
+
+    def term(self):
+        tk = self.eat()
+        if tk == "(":
+            e = self.expr()
+            self.eat(")")
+            return "(%s)" % e
+        if tk.isdigit():
+            return tk
+        if tk == "bytes_buf":
+            self.eat("->")
+            f = self.eat()
+            if f not in ("c", "w", "r", "t"):
+                raise _TrErr("field %r" % f)
+            return f
+        raise _TrErr("term %r" % tk)
+
+    def expr(self):
+        e = self.term()
+        while self.peek() in ("+", "-"):
+            op = self.eat()
+            e = "%s %s %s" % (e, op, self.term())
+        return e
+
+    def rexpr(self):
+        """expr, or cond ? rexpr : rexpr"""
+        save = self.i
+        try:
+            c = self.cond()
+            self.eat("?")
+        except _TrErr:
+            self.i = save
+            return self.expr()
+        a = self.rexpr()
+        self.eat(":")
+        b = self.rexpr()
+        return "(if %s then %s else %s)" % (c, a, b)
+
+    def cond(self):
+        if self.peek() == "!":
+            self.eat("!")
+            self.eat("(")
+            c = self.cond()
+            self.eat(")")
+            return "negb (%s)" % c
+        a = self.expr()
+        op = self.eat()
+        b = self.expr()
+        m = {">=": "(%s >=? %s)", "<=": "(%s <=? %s)", ">": "(%s >? %s)", "<": "(%s <? %s)",
+             "==": "(%s =? %s)", "!=": "negb (%s =? %s)"}
+        if op not in m:
+            raise _TrErr("relational operator %r" % op)
+        return m[op] % (a, b)
+
+    def block(self):
+        """statements up to the closing brace (or end); returns a Gallina expression"""
+        tk = self.peek()
+        if tk == "return":
+            self.eat("return")
+            e = self.rexpr()
+            self.eat(";")
+            return "(%s)" % e
+        if tk == "if":
+            self.eat("if")
+            self.eat("(")
+            c = self.cond()
+            self.eat(")")
+            th = self.braced()
+            if self.peek() == "else":
+                self.eat("else")
+                el = self.braced()
+            else:
+                el = self.block()
+            return "(if %s then %s else %s)" % (c, th, el)
+        raise _TrErr("statement starting with %r" % tk)
+
+    def braced(self):
+        if self.peek() == "{":
+            self.eat("{")
+            e = self.block()
+            self.eat("}")
+            return e
+        return self.block()
+
+
+def _leaf_body(src, name):
+    m = re.search(r"int\s+muggle_bytes_buffer_%s\s*\(\s*muggle_bytes_buffer_t\s*\*\s*bytes_buf\s*\)\s*\{" % name, src)
+    if not m:
+        raise _TrErr("function not found")
+    i, depth = m.end(), 1
+    while i < len(src) and depth:
+        depth += {"{": 1, "}": -1}.get(src[i], 0)
+        i += 1
+    return src[m.end():i - 1]
+
+
+def gen_params(ctx):
+    src = open(os.path.join(V.REPO, REPO_SOURCES[0])).read()
+    out = ["(* GENERATED on every run by lib/props/c07.py from %s — do not edit. *)" % REPO_SOURCES[0],
+           "From Coq Require Import ZArith Bool.", "Local Open Scope Z_scope.", ""]
+    for name in LEAVES:
+        try:
+            p = _P(_tokens(_leaf_body(src, name)))
+            e = p.block()
+            if p.peek() is not None:
+                raise _TrErr("trailing statement %r" % p.peek())
+            out.append("Definition gen_%s (c w r t : Z) : Z :=\n  %s." % (name, e))
+        except _TrErr as ex:
+            msg = str(ex).replace("*)", "* )").replace("(*", "( *")
+            out.append("(* translator error for %s: %s *)" % (name, msg))
+            out.append("Definition gen_%s (c w r t : Z) : Z := -1." % name)
+        out.append("")
+    return "\n".join(out)
 
 
 # --------------------------------------------------------------------------
@@ -241,15 +404,20 @@ def mk_case(name, c, aops):
             bs.append("%02x" % (ctr[0] % 199 + 1))
             ctr[0] += 1
         return "".join(bs)
+    s, pend, pred = (0, 0, c), None, []
     for a in aops:
         k = a[0]
+        s, pend = a_apply(c, s, pend, a)
         if k in ("write", "wmn", "wmove"):
             lines.append("%s %s" % (k, data(a[1])))
         elif k in ("clear", "st"):
             lines.append(k)
+            if k == "st":
+                pred.append("st %d %d %d %d" % (c, s[0], s[1], s[2]))
         else:
             lines.append("%s %d" % (k, a[1]))
-    return V.Case(name, lines, {"c": c})
+    # pred: the cursor state the generator expects at each 'st' line (tallied, never judged)
+    return V.Case(name, lines, {"c": c, "pred": pred})
 
 
 # --------------------------------------------------------------------------
@@ -271,6 +439,14 @@ def corpus_cases(ctx):
         mk_case("corpus-contract-skip", 8, [("wmn", 1), ("wfc", 2), ("read", 0), ("wmn", 1), ("wfc", 2), ("wmn", 3), ("read", 1)]),
         mk_case("corpus-cap1", 1, [("write", 0), ("write", 1), ("read", 0), ("read", 1), ("wfc", 0), ("wmn", 0), ("rfc", 0)]),
     ]
+    # recorded replays (minimised failing inputs of the unrepaired code and of mutation runs)
+    d = os.path.join(V.VERIF, "corpus", "C07")
+    if os.path.isdir(d):
+        for f in sorted(os.listdir(d)):
+            if f.endswith(".case"):
+                c = V.Case.load(os.path.join(d, f))
+                c.name = "corpusfile-" + f[:-5]
+                cs.append(c)
     return cs
 
 
@@ -586,6 +762,8 @@ _STATES = set()
 
 def tally(dist, case, lines):
     c = None
+    pred = list((case.meta or {}).get("pred", []))
+    dist.setdefault("st_lines_differing_from_generator_prediction", 0)
     for inp, out in zip(case.lines, lines):
         w = inp.split()
         if not w:
@@ -597,12 +775,17 @@ def tally(dist, case, lines):
             continue
         if w[0] == "st":
             _STATES.add(out)
+            if pred:
+                if pred.pop(0) != out:
+                    dist["st_lines_differing_from_generator_prediction"] += 1
             continue
         b = out.split(" | ")[0].split()
         verdict = b[1] if len(b) > 1 else ""
-        if verdict not in ("0", "1", "null", "skip"):
+        if w[0] in ("wfc", "rfc"):
+            verdict = "refused" if verdict == "null" else "ok"      # b[1] is an offset
+        elif verdict not in ("0", "1", "skip"):
             verdict = "ok"
-        key = "%s:%s" % (w[0], {"0": "refused", "1": "ok", "null": "refused"}.get(verdict, verdict))
+        key = "%s:%s" % (w[0], {"0": "refused", "1": "ok"}.get(verdict, verdict))
         dist[key] = dist.get(key, 0) + 1
     dist["distinct_impl_states(c,w,r,t)"] = len(_STATES)
 
